@@ -164,8 +164,13 @@ func runC13(c *ctx, r *Report) error {
 							}
 							errs, _ := lintSrc(name, src)
 							at := false
+							item := nodeAt(re, v.path)
 							for _, e := range errs {
 								if e.Line == kn.Line && e.Column == kn.Column {
+									at = true
+								}
+								// a key outside {cron} in a schedule item is reported at the item
+								if gk == "on.schedule.[]" && e.Line == item.Line && e.Column == item.Column {
 									at = true
 								}
 							}
